@@ -56,7 +56,8 @@ let () =
           | "raw" -> bolt_run a fw ops, spec_ops fw a ops
           | "typed" -> (if legacy then typed_run_legacy fw tag a ops else typed_run fw tag a ops), spec_ops fw a ops
           | "tb-typed" | "tb-listdir" | "tb-list" | "related" | "links" | "rclinks" | "idxval" ->
-              handout_run fw tag bucket ops, spec_ops fw (if present then a else []) ops
+              (if legacy then handout_run_legacy fw tag bucket ops else handout_run fw tag bucket ops),
+              spec_ops fw (if present then a else []) ops
           | "tb-raw" | "tb-seekable" | "idxkey" ->
               rawhand_run fw bucket ops, spec_ops fw (if present then a else []) ops
           | "setsym" | "setsymraw" -> setsym_run tag bucket ops, spec_ops fw (if present then a else []) ops
